@@ -23,6 +23,8 @@ CONTEXTS: dict[str, Ctx] = {
         Ctx("bullet", "", "- ", "  ", 0, "- ", "  "),
         Ctx("ordered", "", "1. ", "   ", 0, "1. ", "   "),
         Ctx("ordered10", "", "10. ", "    ", 0, "10. ", "    "),
+        Ctx("ordered-gain", "9. qyy\n", "10. ", "    ", 1, "10. ", "    "),
+        Ctx("ordered-gain100", "99. qyy\n", "100. ", "     ", 1, "100. ", "     "),
         Ctx("quote-bullet", "", "> - ", ">   ", 0, "> - ", ">   "),
         Ctx("nested", "- qyy\n", "  - ", "    ", 1, "  - ", "    "),
         Ctx("footnote", "", "[^n]: ", "    ", 0, "[^n]: ", "    "),
@@ -32,7 +34,7 @@ CONTEXTS: dict[str, Ctx] = {
     ]
 }
 
-K_QUICK = ["top", "quote", "bullet", "ordered", "footnote-long"]
+K_QUICK = ["top", "quote", "bullet", "ordered", "ordered-gain", "footnote-long"]
 K_ALL = list(CONTEXTS)
 
 
